@@ -144,7 +144,7 @@ def apply(pool, state, act, variant=0):
             val["cls_ok"] = type(r) is type(cad)
         elif name == "GetIdx":
             ix = list(act["list"])
-            r = cad[ix if variant % 2 == 0 else np.array(ix)]
+            r = cad[[ix, np.array(ix), tuple(ix)][variant % 3]]
             val["ids"] = pool.names(_members(r))
             val["ordered"] = type(r) is stg.OrderedCadence
             val["cls_ok"] = type(r) is type(cad)
